@@ -1067,6 +1067,13 @@ N('davidson-extension-full-pivoting', 'C15',
 N('davidson-correction-count-from-ritz-values', 'C15',
   [('DavidsonSymEigsSolver.h', "Index(residues.cols()));", "Index(eigvals.size()));")], 'same count from the other array')
 
+# ----------------------------------------------------------------------------- F46
+M('expand-basis-accepts-a-rounding-residue', 'C07,C13', 'fresh-direction-has-positive-norm',
+  [('LinAlg/Arnoldi.h', "if (ortho_err < m_eps * fnorm && fnorm > sqrt(m_eps) * fnorm0)", "if (ortho_err < m_eps * fnorm)")], 'reverts fix F46')
+M('expand-basis-reference-norm-taken-after-the-projection', 'C07', 'fresh-direction-has-positive-norm',
+  [('LinAlg/Arnoldi.h', "            const RealScalar fnorm0 = m_op.norm(f);\n            // f <- f - V * (V^H)Bf, so that f is orthogonal to V in B-norm\n            m_op.adjoint_product(V, f, Vf);\n            f.noalias() -= V * Vf;\n",
+    "            // f <- f - V * (V^H)Bf, so that f is orthogonal to V in B-norm\n            m_op.adjoint_product(V, f, Vf);\n            f.noalias() -= V * Vf;\n            const RealScalar fnorm0 = m_op.norm(f);\n")], 'the reference is the norm AFTER the first projection: already noise')
+
 # ----------------------------------------------------------------------------- F45
 M('arnoldi-extension-keeps-advertising-its-dimension', 'C07', 'interrupted-extension-advertises-no-dimension',
   [('LinAlg/Arnoldi.h', "        m_k = 0;\n\n        // Keep the upperleft k x k submatrix of H", "        // Keep the upperleft k x k submatrix of H")], 'reverts fix F45 (Arnoldi)')
